@@ -59,4 +59,5 @@ pub fn b_eq(b: &[u8]) -> bool { b == b"PROXY" }
 pub fn b_chunks(b: &[u8]) -> usize { let mut c = b.chunks_exact(2); let a = c.next().map(|x| x[0] as usize).unwrap_or(300); let d = c.next().map(|x| x[1] as usize).unwrap_or(300); a * 1000000 + d * 1000 + c.remainder().len() }
 fn take_n<const N: usize>(b: &[u8]) -> Option<[u8; N]> { b.get(..N)?.try_into().ok() }
 pub fn b_constgen(b: &[u8]) -> usize { take_n::<3>(b).map(|a| a[2] as usize).unwrap_or(999) }
+pub fn u_bits(b: &[u8]) -> usize { let n = b.len(); n + (1usize << u16::BITS) + b.first().copied().map(usize::from).unwrap_or(7) + b.get(1).map(|x| *x as usize + 1).filter(|x| *x > 3).map_or(9, |x| x * 2) }
 pub fn u_sat(b: &[u8]) -> usize { let n = b.len(); (n as u16).saturating_add(65533) as usize + n.saturating_sub(3) + n.checked_sub(2).unwrap_or(77) + n.min(2) + n.max(4) }
